@@ -20,7 +20,60 @@ func Callee(c ssa.CallInstruction) *ssa.Function {
 	if c == nil {
 		return nil
 	}
-	return c.Common().StaticCallee()
+	if f := c.Common().StaticCallee(); f != nil {
+		return f
+	}
+	if c.Common().IsInvoke() {
+		return nil
+	}
+	return closureOf(c.Common().Value, 0)
+}
+
+// closureOf resolves a function value to the function literal it denotes when
+// that is fixed by the code: a value kept in a single-assignment local, or the
+// result of a function all of whose returns hand out the same function literal
+// (a "make me a checker" constructor).
+func closureOf(v ssa.Value, depth int) *ssa.Function {
+	if depth > 4 || v == nil {
+		return nil
+	}
+	switch x := v.(type) {
+	case *ssa.MakeClosure:
+		f, _ := x.Fn.(*ssa.Function)
+		return f
+	case *ssa.Function:
+		return x
+	case *ssa.ChangeType:
+		return closureOf(x.X, depth+1)
+	case *ssa.UnOp:
+		if a, ok := x.X.(*ssa.Alloc); ok && x.Op == token.MUL {
+			var val ssa.Value
+			n := 0
+			for _, r := range *a.Referrers() {
+				if st, isSt := r.(*ssa.Store); isSt && st.Addr == ssa.Value(a) {
+					val, n = st.Val, n+1
+				}
+			}
+			if n == 1 {
+				return closureOf(val, depth+1)
+			}
+		}
+	case *ssa.Call:
+		callee := x.Common().StaticCallee()
+		if callee == nil || callee.Blocks == nil || callee.Signature.Results().Len() != 1 {
+			return nil
+		}
+		var out *ssa.Function
+		for _, r := range Returns(callee) {
+			f := closureOf(r.Results[0], depth+1)
+			if f == nil || out != nil && f != out {
+				return nil
+			}
+			out = f
+		}
+		return out
+	}
+	return nil
 }
 
 // CalleeObject returns the types.Func a call resolves to: the static callee's
